@@ -148,6 +148,7 @@ def axioms_for(used):
         fa([x, y], z3.Implies(z3.And(x > 0, y > 0, x < y), ln(x) < ln(y)), [z3.MultiPattern(ln(x), ln(y))])
         fa([x, y], z3.Implies(z3.And(x > 0, y > 0, x <= y), ln(x) <= ln(y)), [z3.MultiPattern(ln(x), ln(y))])
         out.append(ln(1) == 0)
+        fa([x], z3.Implies(x > 0, ln(x) < x), [ln(x)])
         fa([x], z3.Implies(x > 0, ln(1 / x) == -ln(x)), [ln(1 / x)])
         out.append(z3.And(ln(2) > z3.RealVal("0.6931"), ln(2) < z3.RealVal("0.6932")))
         out.append(ln(E_) == 1)
@@ -175,6 +176,7 @@ def axioms_for(used):
         fa([x, y], z3.Implies(x > 0, rpow(x, y) > 0), [rpow(x, y)])
     if "rpow-shrink" in used:     # opt-in: a base in (0,1) raised to an exponent > 1 gets strictly smaller
         fa([x, y], z3.Implies(z3.And(x > 0, x < 1, y > 1), z3.And(rpow(x, y) < x, rpow(x, y) > 0)), [rpow(x, y)])
+        fa([x, y], z3.Implies(z3.And(x > 0, x < 1, y > 0), z3.And(rpow(x, y) < 1, rpow(x, y) > 0)), [rpow(x, y)])
     if "rpow-arith" in used:      # opt-in (contract kw axioms=[...]): these multiply instances when many rpow terms occur
         fa([x], z3.Implies(x > 0, rpow(x, 0) == 1), [rpow(x, 0)])
         fa([x], rpow(x, 1) == x, [rpow(x, 1)])
